@@ -1,5 +1,6 @@
 """Per-property checks: which TLC configurations own the property, with which bounds per
 tier, and how their scenarios are replayed / their traces validated."""
+import hashlib
 import json
 import os
 
@@ -79,10 +80,10 @@ def c01(tier, seed):
 
 def c02(tier, seed):
     if tier == "quick":
-        t = session("c02-honest", PskMode="single", Profiles=["zero", "tag", "max"])
+        t = session("c02-honest", PskMode="single", Profiles=["zero", "tag", "max"], BufModes=["big", "exact"])
         r = replay("C02", t, seed, 1)
     else:
-        t = session("c02-honest", PskMode="all", Profiles=["zero", "small", "tag", "max"])
+        t = session("c02-honest", PskMode="all", Profiles=["zero", "small", "tag", "mid", "max"], BufModes=["big", "exact"])
         r = replay("C02", t, seed, 3, threads=14)
     return merge("model_checking", [t], [r], RULE_D1 +
                  "here: honest sessions with payload profiles zero/tag-sized/maximum-fit (65535 minus the model-computed "
@@ -144,13 +145,13 @@ def c06(tier, seed):
 def c14(tier, seed):
     kinds = ["wbuf", "wmax", "rtrunc", "rext"]
     if tier == "quick":
-        t1 = session("c14-honest", Profiles=["max", "zero"], PskMode="single", Variants=["tr"])
+        t1 = session("c14-honest", Profiles=["max", "zero", "mid"], BufModes=["exact"], PskMode="single", Variants=["tr"])
         t2 = session("c14-faults", FaultBudget=1, FaultKinds=kinds, Profiles=["small", "max"], PubLens=[32, 65],
                      InitPads=[False], Variants=["tr"], TrafficMode="short")
         r1 = replay("C14", t1, seed, 1)
         r2 = replay("C14", t2, seed, 1)
     else:
-        t1 = session("c14-honest", Profiles=["max", "zero", "tag"], PskMode="all")
+        t1 = session("c14-honest", Profiles=["max", "zero", "tag", "mid"], BufModes=["big", "exact"], PskMode="all")
         r1 = replay("C14", t1, seed, 2, threads=14)
         t2 = session("c14-faults", FaultBudget=1, FaultKinds=kinds, PskMode="single", Profiles=["small", "max"],
                      InitPads=[False], Variants=["tr"], TrafficMode="short")
@@ -319,9 +320,134 @@ def c16(tier, seed):
                  "sender produces as its n-th message, evaluated independently", ASSUME_SYMBOLIC)
 
 
+def c11(tier, seed):
+    if tier == "quick":
+        c = dict(FullRollback=True, PatSetS=BASE, PskSetS=[[], [0], [2]], Depth=7, MaxFail=2, EmitEdges=True)
+        per = 1
+    else:
+        c = dict(FullRollback=True, PatSetS=BASE, PskSetS=[[], [0], [1], [2], [3], [4], [0, 2]], Depth=9, MaxFail=3,
+                 EmitEdges=True)
+        per = 2
+    t = run_tlc("MC_StateMachine", c, invariants=["InvS"], name="c11-sm", timeout=3000, view="ViewS",
+                action_constraint="EmitEdge")
+    r = replay("C11", t, seed, per, threads=14, dh="25519")
+    return merge("model_checking", [t], [r],
+                 "TLC explores spec/MC_StateMachine.tla exhaustively: every sequence of calls from {write valid / into an "
+                 "empty buffer, read genuine / stale / garbage, convert to stateful or stateless (at ANY time), transport "
+                 "write/read} on both endpoints up to the stated depth and number of failing calls, for all 38 patterns and "
+                 "psk representatives (1-4 messages, one-way and interactive); every EDGE of the state graph is emitted with a "
+                 "shortest path and replayed: result variant, is_my_turn, is_handshake_finished, is_initiator compared after "
+                 "every call; TLC checks Indicators, OutOfPhase, ConvertOnlyFinished, OneWayS", ASSUME_SYMBOLIC)
+
+
+def c12(tier, seed):
+    t1 = run_tlc("MC_Builder", dict(FullRollback=True, PatSetB=BASE), invariants=["PrereqSane"], name="c12-builder",
+                 workers=1, timeout=1200)
+    r1 = replay("C12", t1, seed, 1, threads=14)
+    # a PSK that was not supplied is an error AT THE MESSAGE THAT NEEDS IT, and set_psk then lets it proceed
+    if tier == "quick":
+        t2 = session("c12-latepsk", PskMode="only", LatePsk=True, PubLens=[32], InitPads=[False], Variants=["tr"],
+                     TrafficMode="short", PatSet=["NN", "XX", "IK", "N", "X1X1", "K1K", "KX"])
+    else:
+        t2 = session("c12-latepsk", PskMode="only", LatePsk=True, PubLens=[32], InitPads=[False], Variants=["tr"],
+                     TrafficMode="short")
+    r2 = replay("C12", t2, seed, 1, threads=14)
+    res = merge("model_checking", [t1, t2], [r1, r2],
+                "complete enumeration by TLC (spec/MC_Builder.tla): 38 patterns x 2 roles x 4 subsets of supplied static keys "
+                "x modifier lists {none, psk0..psk9, fallback, psk1+fallback} x resolver lacking {nothing, rng, dh, cipher, "
+                "hash} = 19 760 build cases, each built on the real code (stub resolver for the missing primitive) and the "
+                "result/kind compared with the prerequisites DERIVED from the token table; plus sessions in which one endpoint "
+                "is built without one of its PSKs: the error must come at the message that needs it and set_psk at any later "
+                "time must let the same step succeed; honest runs from accepted configurations never hit "
+                "MissingKeyMaterial (NeverStuck, all honest sessions of C01/C02)", ASSUME_SYMBOLIC)
+    res["coverage"]["exhaustive"] = True
+    return res
+
+
+def c13(tier, seed):
+    names = name_table()
+    d = os.path.join(WORK, "c13-names")
+    os.makedirs(d, exist_ok=True)
+    nd = os.path.join(d, "names.ndjson")
+    seeds, rnd = (60, 5000) if tier == "quick" else (1500, 200000)
+    rc, out = harness(["names", "--names", names, "--seed", str(seed), "--seeds", str(seeds), "--random", str(rnd),
+                       "--out", nd])
+    nstr = json.loads(out.strip().splitlines()[-1])["strings"]
+    os.environ["NAMES_FILE"] = nd
+    t = run_tlc("MC_NamesJudge", {}, invariants=["Finished"], name="c13-judge", workers=1, timeout=3000)
+    del os.environ["NAMES_FILE"]
+    bad = [json.loads(json.loads(ln[len('<<"BAD", '):-3 + 1].rstrip(">")))
+           for ln in open(t["out"]) if ln.startswith('<<"BAD"')]
+    judged = [ln for ln in open(t["out"]) if ln.startswith('<<"JUDGED"')]
+    if not judged:
+        raise ToolError("names judge did not finish")
+    accepted = int(judged[0].strip().rstrip(">").split(",")[-1])
+    viol = []
+    os.makedirs(os.path.join(REPLAYS, "C13"), exist_ok=True)
+    for b in bad[:12]:
+        p = os.path.join(REPLAYS, "C13", hashlib.sha256(b["s"].encode()).hexdigest()[:16] + ".json")
+        json.dump(dict(property="C13", string=b["s"], verdict=b["verdict"], observed=b["rec"]), open(p, "w"))
+        viol.append(dict(op="parse", what=b["verdict"], cause="", expected="grammar of spec/NoiseNames.tla",
+                         observed=json.dumps(b["rec"])[:200], replay=p, name=b["s"]))
+    samples = [json.loads(x) for x in list(open(nd))[13344:13350]]
+    cov = dict(states=t["distinct"], transitions=t["states"], traces_validated_against_impl=nstr,
+               samples=samples, evaluations=nstr, distinct_nontrivial=nstr - accepted,
+               strings_judged=nstr, strings_accepted=accepted, mismatches=len(bad),
+               rule="every one of the 13 344 names of the TLC-enumerated language (spec/MC_NameTable.tla also checks "
+                    "ParseName o NameOf = identity on all of them) is parsed by snow; then the harness applies generic "
+                    "character-level edits it has no grammar for (insert 28 different fragments at every position, delete, "
+                    "duplicate, case-flip, replace every character, drop/duplicate/swap fields) to seeded names and random "
+                    "near-miss strings, parses each with snow, and TLC judges every (string, outcome, parsed components, "
+                    "verbatim name, error class) record with ParseName of spec/NoiseNames.tla; distinct_nontrivial = strings "
+                    "that must be rejected", exhaustive=False)
+    os.remove(nd)
+    return dict(level="model_checking", coverage=cov, violations=viol,
+                assumptions=["the grammar in spec/NoiseNames.tla is the Noise rev 34 section 8 grammar plus snow's documented "
+                             "P256/XChaChaPoly/448 names; psk numerals up to 255 with leading zeros are accepted (the "
+                             "property does not define the numeral)"])
+
+
+def c20(tier, seed):
+    # (a) every backend assignment conforms to the same backend-free specification
+    if tier == "quick":
+        t1 = session("c20-honest", PskMode="single", PubLens=[32], Profiles=["mid"], BufModes=["big", "exact"],
+                     Variants=["tr", "sl"])
+        r1 = replay("C20", t1, seed, 1, backends="mix-sample", threads=14)
+        t3 = transport("c20-transport", MaxSend=2, Depth=3, BadBudget=1, SetBudget=0, SmallBufs=True)
+        r3 = replay("C20", t3, seed, 1, backends="mix-sample", threads=14)
+    else:
+        t1 = session("c20-honest", PskMode="all", PubLens=[32], Profiles=["small", "mid", "max"], BufModes=["big", "exact"],
+                     Variants=["tr", "sl"])
+        r1 = replay("C20", t1, seed, 2, backends="mix", threads=14)
+        t3 = transport("c20-transport", MaxSend=2, Depth=4, BadBudget=1, SetBudget=1, SmallBufs=True)
+        r3 = replay("C20", t3, seed, 1, backends="mix", threads=14)
+    # (b) fallback truth table
+    t2 = run_tlc("MC_Fallback", {}, invariants=["IffEither"], name="c20-fallback", workers=1, timeout=300)
+    resf = os.path.join(WORK, "c20-fallback", "result.json")
+    rc, out = harness(["fallback", "--table", t2["out"], "--result", resf])
+    fb = json.load(open(resf))
+    os.makedirs(os.path.join(REPLAYS, "C20"), exist_ok=True)
+    fviol = []
+    for v in fb["violations"]:
+        p = os.path.join(REPLAYS, "C20", "fallback-" + hashlib.sha256(json.dumps(v["row"]).encode()).hexdigest()[:12] + ".json")
+        json.dump(dict(property="C20", fallback_row=v["row"], observed=v["observed"]), open(p, "w"))
+        v["replay"] = p
+        fviol.append(v)
+    res = merge("model_checking", [t1, t3, t2], [r1, r3],
+                RULE_D1 + "here: the specification has no notion of backend, so 'unobservable on the wire' is conformance of "
+                "every backend assignment to the same terms: honest sessions and transport edges are replayed with the two "
+                "endpoints independently assigned {default, fallback(ring,default), fallback(default,ring)} (quick: 3 of the 9 "
+                "assignments per scenario, thorough: all 9) for names both backends support (25519 x {ChaChaPoly, AESGCM} x "
+                "{SHA256, SHA512}); plus the complete FallbackResolver truth table (4 kinds x every choice x 2 x 2 "
+                "availabilities = 44 rows) with marker resolvers", ASSUME_SYMBOLIC,
+                extra_cov=dict(fallback_rows=fb["rows"]))
+    res["violations"] += fviol
+    return res
+
+
 CHECKS = {
-    "C01": c01, "C02": c02, "C03": c03, "C04": c04, "C05": c05, "C06": c06, "C07": c07, "C09": c09,
-    "C14": c14, "C15": c15, "C16": c16, "C17": c17,
+    "C01": c01, "C02": c02, "C03": c03, "C04": c04, "C05": c05, "C06": c06, "C07": c07, "C09": c09, "C11": c11, "C12": c12, "C13": c13,
+    "C14": c14, "C15": c15, "C16": c16, "C17": c17, "C20": c20,
 }
 
 
